@@ -7,7 +7,7 @@ import json, os, re, shutil, subprocess, sys
 mid = sys.argv[1]
 src = f"/tmp/mut/{mid}"; wt = f"/tmp/wt/m{mid}"
 meta = json.load(open(f"{src}/meta.json"))
-cmd = meta["demo_cmd"]
+cmd = re.sub(r"\s{2,}\(.*$", "", meta["demo_cmd"]).strip()
 def sh(c, cwd=None):
     p = subprocess.run(c, shell=True, cwd=cwd, capture_output=True, text=True)
     return p.returncode, (p.stdout + p.stderr)
